@@ -76,9 +76,9 @@ pub fn run(ctx: &Ctx, rep: &mut Report) {
     }
     rep.sub_set("fill-order-permutations", "exhaustive", serde_json::json!(true));
     rep.sub_set("fill-order-permutations", "what", serde_json::json!("n = 1..5 (6) placeholders x all n! fill orders x 3 push-size variants, partial consumption after every fill"));
-    let cases = ctx.share(ctx.tier.pick(60_000, 2_400_000));
+    let cases = ctx.share(ctx.tier.pick(120_000, 2_400_000));
     engine::drive(ctx, rep, "backpatch-histories", iovec_sm::history(Mix::Backpatch, 60), cases, check_case);
-    let cases = ctx.share(ctx.tier.pick(15_000, 600_000));
+    let cases = ctx.share(ctx.tier.pick(30_000, 600_000));
     engine::drive(ctx, rep, "general-histories", iovec_sm::history(Mix::General, 80), cases, check_case);
 }
 
